@@ -18,6 +18,10 @@ pub struct Cfg {
     /// decisions must be those of a single load
     #[serde(default)]
     pub retuned: bool,
+    /// resource type the entries declare (0 Common, 1 Web, 2 RPC); the rules are loaded first, so the
+    /// statistics node exists (as Common) before the first entry
+    #[serde(default)]
+    pub rtype: u8,
 }
 
 #[derive(Clone, Debug)]
@@ -120,6 +124,7 @@ impl Subject for C01 {
             flow::load_rules(mk(1.0));
         }
         flow::load_rules(mk(0.0));
+        set_entry_resource_type(self.cfg.rtype);
         self.log.clear();
         self.decisions.clear();
         self.rolled = false;
@@ -241,8 +246,17 @@ pub fn configs(thorough: bool) -> Vec<Cfg> {
     for iv in INTERVALS {
         for thr in THRESHOLDS {
             for ph in phases {
-                v.push(Cfg { rules: vec![(thr, iv)], phase: *ph, retuned: false });
+                v.push(Cfg { rules: vec![(thr, iv)], phase: *ph, retuned: false, rtype: 0 });
             }
+        }
+    }
+    // entries that declare another resource type than the node was created with
+    for (i, iv) in INTERVALS.iter().enumerate() {
+        for rtype in [1u8, 2] {
+            if !thorough && (i + rtype as usize) % 2 != 0 {
+                continue;
+            }
+            v.push(Cfg { rules: vec![(2.0, *iv)], phase: [0, 499][i % 2], retuned: false, rtype });
         }
     }
     // pairs of distinct interval classes, thresholds {1, 2.5} / {2, 3}
@@ -254,7 +268,7 @@ pub fn configs(thorough: bool) -> Vec<Cfg> {
                 if !thorough && k % 7 != 0 {
                     continue;
                 }
-                v.push(Cfg { rules: vec![(ta, *a), (tb, *b)], phase: [0, 250, 499, 1][(k % 4) as usize], retuned: k % 2 == 0 });
+                v.push(Cfg { rules: vec![(ta, *a), (tb, *b)], phase: [0, 250, 499, 1][(k % 4) as usize], retuned: k % 2 == 0, rtype: 0 });
             }
         }
     }
@@ -265,7 +279,7 @@ pub fn configs(thorough: bool) -> Vec<Cfg> {
             if !thorough && (i + retuned as usize) % 2 != 0 {
                 continue;
             }
-            v.push(Cfg { rules: vec![(2.0, *iv), (3.0, *iv)], phase: [0, 499][i % 2], retuned });
+            v.push(Cfg { rules: vec![(2.0, *iv), (3.0, *iv)], phase: [0, 499][i % 2], retuned, rtype: 0 });
         }
     }
     if thorough {
@@ -278,7 +292,7 @@ pub fn configs(thorough: bool) -> Vec<Cfg> {
                     if k % 2 != 0 {
                         continue;
                     }
-                    v.push(Cfg { rules: vec![(2.0, *a), (3.0, *b), (1.0, *c)], phase: [0, 250, 499, 1][(k % 4) as usize], retuned: k % 4 == 0 });
+                    v.push(Cfg { rules: vec![(2.0, *a), (3.0, *b), (1.0, *c)], phase: [0, 250, 499, 1][(k % 4) as usize], retuned: k % 4 == 0, rtype: 0 });
                 }
             }
         }
